@@ -89,7 +89,7 @@ def run(ctx, prog):
         starts = [e[1] for e in f_e]
         r = b.reach(starts, avoid_blocks=dec, avoid_edges=ae) | set(starts)
         # "leaves the failure handling" = reaches a return or the next stream item
-        exits = set(b.return_blocks()) | set(c.bb for c in b.calls if c.is_('re:Streaming<.*>::message$', 're:StreamExt.*::next$'))
+        exits = set(b.return_blocks()) | set(c.bb for c in b.calls if c.is_('re:Streaming::message$', 're:StreamExt.*::next$'))
         bad = [x for x in exits if x in r]
         o = flow.Origin(b)
         args_ok = all(flow.render(o.of_operand(b.call_at(d).args[2])) == '1' for d in dec)
@@ -109,7 +109,7 @@ def run(ctx, prog):
         others = [x.bb for x in loads if x.bb != c.bb]
         # Err: release(reserved_slots) on every path before leaving
         starts = [e[1] for e in f_e]
-        exits = set(b.return_blocks()) | set(x.bb for x in b.calls if x.is_('re:Streaming<.*>::message$')) | set(others)
+        exits = set(b.return_blocks()) | set(x.bb for x in b.calls if x.is_('re:Streaming::message$')) | set(others)
         rel_full = [x.bb for x in rel if flow.render(ov.of_operand(x.args[2])) == 'var:reserved_slots']
         r = b.reach(starts, avoid_blocks=rel_full) | set(starts)
         bad = [x for x in exits if x in r]
